@@ -26,10 +26,10 @@ PHASE_HDR = {'setup': '[setup]', 'ba': '[before-assert]', 'assert': '[assert]', 
 PHASE_NAME = {'setup': 'setup', 'ba': 'before-assert', 'assert': 'assert', 'cleanup': 'cleanup', 'act': 'act'}
 
 
-def cfg(histories, spec='TSpec', invariants=INVARIANTS, props=()):
+def cfg(histories, spec='TSpec', invariants=INVARIANTS, props=(), deviations=()):
     return ('SPECIFICATION %s\nCONSTANTS MaxN = 3\n Limit = 2\n ShortDur = 1\n LongDur = 5\n'
-            ' Places = {"setup", "act", "ba", "assert", "cleanup"}\n Histories = {%s}\n'
-            % (spec, ', '.join('"%s"' % h for h in histories))
+            ' Places = {"setup", "act", "ba", "assert", "cleanup"}\n Histories = {%s}\n Deviations = {%s}\n'
+            % (spec, ', '.join('"%s"' % h for h in histories), ', '.join('"%s"' % d for d in deviations))
             + ''.join('INVARIANT %s\n' % i for i in invariants) + ''.join('PROPERTY %s\n' % p for p in props)
             + 'CHECK_DEADLOCK FALSE\n')
 
@@ -214,6 +214,12 @@ def run(ctx):
     ctx.tlc('Timeout', cfg(['set-before', 'set-after'], spec='TFairSpec', invariants=[], props=['Returns']),
             name='liveness', count=False)
     ctx.cov['liveness_checked'] = ['Returns']
+    dv = ctx.tlc('Timeout', cfg(['decl-then-set', 'set-decl-none'], invariants=['TerminatedWhenOver', 'NotKilledWhenUnder'],
+                                deviations=['CapturedAtDeclaration']), name='mc-with-deviation', count=False,
+                 must_hold=False)
+    if dv.violated not in ('TerminatedWhenOver', 'NotKilledWhenUnder'):
+        raise core.MachineryFailure('the deviation CapturedAtDeclaration is not refuted (TLC: %s)' % dv.violated)
+    ctx.cov['negative_controls_rejected'] += 1
     ex = ctx.tlc('TimeoutExport', cfg(hists, invariants=['Export']), workers=1, name='export', count=False)
     cases = ex.printed_json('CASE')
     if quick:
